@@ -6,4 +6,6 @@ import (
 	_ "hv/props/c04"
 	_ "hv/props/c05"
 	_ "hv/props/c06"
+	_ "hv/props/c11"
+	_ "hv/props/c18"
 )
